@@ -2,12 +2,17 @@
 import conn_checks
 import write_checks
 import chain_checks
+import server_checks
 
 CHECKS = {
     "C01": (conn_checks.c01, conn_checks.replay_framing),
     "C02": (write_checks.c02, write_checks.replay_writing),
     "C06": (chain_checks.c06, chain_checks.replay_chain),
     "C07": (conn_checks.c07, conn_checks.replay_framing),
+    "C08": (server_checks.c08, server_checks.replay_server),
+    "C09": (server_checks.c09, server_checks.replay_server),
+    "C10": (server_checks.c10, server_checks.replay_server),
     "C11": (chain_checks.c11, chain_checks.replay_chain),
     "C17": (write_checks.c17, write_checks.replay_writing),
+    "C18": (server_checks.c18, server_checks.replay_server),
 }
